@@ -231,3 +231,54 @@ def c06_assignment(tier="quick", seed=0):
                 e[1] = (cid, src, got, exp)
     return [ob(f"C06.bounded.assignment.{k}", b is None, "B", f"{n} (form, operand) cases" if b is None else f"{b[0]}: engine {b[2]!r} expected {b[3]!r}",
                witness=(b[1] if b else None), confirmed=True if b else None, domain=n) for k, (n, b) in by.items()]
+
+
+# ---- bounded: the callee contract the proofs above assume for _string_to_number, around the precision boundaries --------
+def _strnum_chunk(strs):
+    from microjs import Context
+    import specs.es_core as CORE_
+    import specs.es_ops as OPS_
+    bad = []
+    c = Context(time_limit=20)
+    for t in strs:
+        x = CORE_.StringToNumber(t)
+        exp = "|".join(CORE_.ToString(v) for v in (x, OPS_.num_rem(x, 2), OPS_.op_add(OPS_.op_sub(x, 1), 2), OPS_.op_neg(x) if hasattr(OPS_, "op_neg") else -x,
+                                                     OPS_.op_mul(x, 1), OPS_.op_sub(x, 0), OPS_.op_div(x, 1), x))
+        import json as _j
+        q = _j.dumps(t)
+        src = (f"var s = {q}; [String(+s), String((+s) % 2), String((+s) - 1 + 2), String(-(+s)), String(s * 1), String(s - 0), String(s / 1), String(Number(s))].join('|')"
+               f" + '|' + (s == +s) + (+s === Number(s)) + ((+s) + 0 === +s)")
+        try:
+            got = c.eval(src)
+        except BaseException as e:  # noqa
+            got = f"!{type(e).__name__}: {e}"[:100]
+            c = Context(time_limit=20)
+        if got != exp + "|truetruetrue" and not (x != x and got == exp + "|falsefalsefalse"):
+            bad.append((t, src, got, exp))
+    return len(strs), bad
+
+
+@groups.group(id="C06.bounded.string-to-number", prop="C06", kind="B", functions=["microjs.values:_string_to_number"])
+def c06_strnum(tier="quick", seed=0):
+    """numeric strings as operands: the number is the correctly rounded double of the decimal text and behaves like one
+    (no exact-integer representation leaks through %, +, -, unary minus, String)"""
+    import multiprocessing as mp, random
+    r = random.Random(seed)
+    base = set()
+    for k in range(1, 24):
+        base.update(["9" * k, "1" + "0" * (k - 1), "1" + "0" * (k - 1) + "1", "5" * k, "0" * 3 + "7" * k])
+    for d in range(-6, 7):
+        for m in (2 ** 53, 2 ** 53 * 2, 2 ** 53 * 4 + 2, 2 ** 63, 2 ** 64, 2 ** 31, 2 ** 32, 10 ** 15, 10 ** 16, 10 ** 17, 10 ** 21, 10 ** 22):
+            base.add(str(m + d))
+    for _ in range(300 if tier == "quick" else 6000):
+        base.add("".join(r.choice("0123456789") for _ in range(r.randint(14, 22))).lstrip("0") or "0")
+    strs = []
+    for t in sorted(base):
+        strs += [t, "-" + t, "+" + t, " " + t + "\n", t + ".0", t + ".5", t + "e0", t[:-1] + "." + t[-1] + "e1", "0x" + hex(int(t))[2:] if len(t) < 18 else t + "e-1"]
+    strs += ["9007199254740993", "9007199254740995", "9999999999999999", "0.1", "1e309", "-1e309", "1e-400", "4.35", "0.000001", "123456789012345680000", "1e21", "1e+21", ".5", "5.", "", " ", "0x", "1e", "--1", "Infinity", "-Infinity", "infinity"]
+    chunks = [strs[i::16] for i in range(16)]
+    with mp.get_context("fork").Pool(16) as pool:
+        rs = pool.map(_strnum_chunk, chunks)
+    bad = [b for _, bs in rs for b in bs]
+    return [ob("C06.bounded.string-to-number", not bad, "B", f"{len(strs)} numeric strings through 11 observations" if not bad else f"{bad[0][0]!r}: engine {bad[0][2]!r} expected {bad[0][3]!r}",
+               witness=(bad[0][1] if bad else None), confirmed=True if bad else None, domain=len(strs))]
